@@ -108,10 +108,15 @@ pub enum PayRef<'x> {
 
 pub enum Never {}
 
+/// a harness container of `X` as the library hands it out in access style `F`
+pub type FCont<'g, F, X> = ContAcc<X, <F as Fam>::S<'g, X>>;
+
 pub trait Fam: 'static {
     type M<'g>: 'g;
     type R<'g>: 'g;
     type P<'g, X: 'g>: 'g;
+    /// the library's value for a `Vec` / boxed slice of members
+    type S<'g, X: 'g>: std::ops::DerefMut<Target = [X]> + 'g;
     fn m_pay<'x, 'g: 'x>(m: &'x mut Self::M<'g>) -> PayRef<'x>;
     fn r_pay<'x, 'g: 'x>(r: &'x mut Self::R<'g>) -> PayRef<'x>;
     /// open one Poisonable layer: (is_err, inner)
@@ -131,6 +136,7 @@ impl Fam for WG {
     type M<'g> = MutexRef<'g, Pay, SimRawMutex>;
     type R<'g> = RwLockWriteRef<'g, Pay, SimRawRwLock>;
     type P<'g, X: 'g> = PoisonResult<PoisonRef<'g, X>>;
+    type S<'g, X: 'g> = happylock::lockable::GuardSlice<X>;
     fn m_pay<'x, 'g: 'x>(m: &'x mut Self::M<'g>) -> PayRef<'x> {
         PayRef::Mut(&mut **m)
     }
@@ -149,11 +155,12 @@ impl Fam for RG {
     type M<'g> = Never;
     type R<'g> = RwLockReadRef<'g, Pay, SimRawRwLock>;
     type P<'g, X: 'g> = PoisonResult<PoisonRef<'g, X>>;
+    type S<'g, X: 'g> = happylock::lockable::GuardSlice<X>;
     fn m_pay<'x, 'g: 'x>(m: &'x mut Self::M<'g>) -> PayRef<'x> {
         match *m {}
     }
     fn r_pay<'x, 'g: 'x>(r: &'x mut Self::R<'g>) -> PayRef<'x> {
-        PayRef::Shared(&**r)
+        crate::shared_leaf_access!(r, RwLockReadRef<'g, Pay, SimRawRwLock>)
     }
     fn p_open<'x, 'g: 'x, X: 'g>(p: &'x mut Self::P<'g, X>) -> (bool, &'x mut X) {
         match p {
@@ -167,6 +174,7 @@ impl Fam for DM {
     type M<'g> = &'g mut Pay;
     type R<'g> = &'g mut Pay;
     type P<'g, X: 'g> = PoisonResult<X>;
+    type S<'g, X: 'g> = Box<[X]>;
     fn m_pay<'x, 'g: 'x>(m: &'x mut Self::M<'g>) -> PayRef<'x> {
         PayRef::Mut(&mut **m)
     }
@@ -185,6 +193,7 @@ impl Fam for DR {
     type M<'g> = Never;
     type R<'g> = &'g Pay;
     type P<'g, X: 'g> = PoisonResult<X>;
+    type S<'g, X: 'g> = Box<[X]>;
     fn m_pay<'x, 'g: 'x>(m: &'x mut Self::M<'g>) -> PayRef<'x> {
         match *m {}
     }
@@ -449,9 +458,11 @@ pub enum Cont<T> {
     T7((T, T, T, T, T, T, T)),
 }
 
-pub enum ContAcc<G> {
-    V(Box<[G]>),
-    B(Box<[G]>),
+/// `S` is what the library hands out for a `Vec` / boxed slice of members in the access
+/// style at hand
+pub enum ContAcc<G, S = Box<[G]>> {
+    V(S),
+    B(S),
     A0([G; 0]),
     A1([G; 1]),
     A2([G; 2]),
@@ -600,7 +611,7 @@ impl<T> Cont<T> {
     }
 }
 
-impl<G> ContAcc<G> {
+impl<G, S: std::ops::DerefMut<Target = [G]>> ContAcc<G, S> {
     pub fn get_mut(&mut self, i: usize) -> &mut G {
         match self {
             ContAcc::V(c) => &mut c[i],
@@ -663,7 +674,9 @@ impl<G> ContAcc<G> {
             },
         }
     }
+}
 
+impl<G> ContAcc<G> {
     pub fn into_vec(self) -> Vec<G> {
         match self {
             ContAcc::V(c) => c.into_vec(),
@@ -688,7 +701,7 @@ impl<G> ContAcc<G> {
 
 unsafe impl<T: Lockable> Lockable for Cont<T> {
     type Guard<'g>
-        = ContAcc<T::Guard<'g>>
+        = ContAcc<T::Guard<'g>, <Vec<T> as Lockable>::Guard<'g>>
     where
         Self: 'g;
     type DataMut<'a>
@@ -709,7 +722,7 @@ unsafe impl<T: Lockable> Lockable for Cont<T> {
 
 unsafe impl<T: Sharable> Sharable for Cont<T> {
     type ReadGuard<'g>
-        = ContAcc<T::ReadGuard<'g>>
+        = ContAcc<T::ReadGuard<'g>, <Vec<T> as Sharable>::ReadGuard<'g>>
     where
         Self: 'g;
     type DataRef<'a>
@@ -831,6 +844,24 @@ pub type CML = Cont<&'static mut Leaf>;
 pub type RUnit = OwnedLockCollection<CML>;
 /// a container of mutable borrows of *shared* lock references
 pub type MR = Cont<&'static mut &'static Leaf>;
+/// the library's own list types as children (their guards are the library's slice guards)
+pub type SV = Vec<&'static Leaf>;
+pub type SB = Box<[&'static Leaf]>;
+
+/// collections over `SV` / `SB`; top-level targets only
+#[derive(Debug)]
+pub enum SNode {
+    BoxedV(BoxedLockCollection<SV>),
+    BoxedB(BoxedLockCollection<SB>),
+    RetryV(Box<RetryingLockCollection<SV>>),
+    RefB(RefHolder<SB>),
+    PBoxedV(Box<Poisonable<BoxedLockCollection<SV>>>),
+    PRetryB(Box<Poisonable<RetryingLockCollection<SB>>>),
+}
+
+fn slice_member() -> ! {
+    panic!("happysim: a slice target was generated as a member of another collection")
+}
 
 /// drop-counting tag (C16): counts how often the value it is attached to is dropped
 #[derive(Debug)]
@@ -932,14 +963,16 @@ pub enum Node {
     MRetry(Box<RetryingLockCollection<MR>>),
     MOwned(Box<OwnedLockCollection<MR>>),
     MRef(RefHolder<MR>),
+    /// collections over the library's `Vec` / boxed-slice impls (never members)
+    Slice(SNode),
 }
 
 pub enum NodeAcc<'g, F: Fam> {
     Leaf(LeafAcc<'g, F>),
-    Unit(ContAcc<LeafAcc<'g, F>>),
-    Coll(Box<ContAcc<NodeAcc<'g, F>>>),
-    PColl(Box<F::P<'g, ContAcc<NodeAcc<'g, F>>>>),
-    PUnit(Box<F::P<'g, ContAcc<LeafAcc<'g, F>>>>),
+    Unit(FCont<'g, F, LeafAcc<'g, F>>),
+    Coll(Box<FCont<'g, F, NodeAcc<'g, F>>>),
+    PColl(Box<F::P<'g, FCont<'g, F, NodeAcc<'g, F>>>>),
+    PUnit(Box<F::P<'g, FCont<'g, F, LeafAcc<'g, F>>>>),
 }
 
 unsafe impl Lockable for Node {
@@ -982,6 +1015,7 @@ unsafe impl Lockable for Node {
             Node::MRetry(c) => c.get_ptrs(ptrs),
             Node::MOwned(c) => c.get_ptrs(ptrs),
             Node::MRef(c) => c.get().get_ptrs(ptrs),
+            Node::Slice(_) => slice_member(),
         }
     }
     unsafe fn guard(&self) -> Self::Guard<'_> {
@@ -1014,6 +1048,7 @@ unsafe impl Lockable for Node {
             Node::MRetry(c) => NodeAcc::Unit(c.guard()),
             Node::MOwned(c) => NodeAcc::Unit(c.guard()),
             Node::MRef(c) => NodeAcc::Unit(c.get().guard()),
+            Node::Slice(_) => slice_member(),
         }
     }
     unsafe fn data_mut(&self) -> Self::DataMut<'_> {
@@ -1046,6 +1081,7 @@ unsafe impl Lockable for Node {
             Node::MRetry(c) => NodeAcc::Unit(c.data_mut()),
             Node::MOwned(c) => NodeAcc::Unit(c.data_mut()),
             Node::MRef(c) => NodeAcc::Unit(c.get().data_mut()),
+            Node::Slice(_) => slice_member(),
         }
     }
 }
@@ -1090,6 +1126,7 @@ unsafe impl Sharable for Node {
             Node::MRetry(c) => NodeAcc::Unit(c.read_guard()),
             Node::MOwned(c) => NodeAcc::Unit(c.read_guard()),
             Node::MRef(c) => NodeAcc::Unit(c.get().read_guard()),
+            Node::Slice(_) => slice_member(),
         }
     }
     unsafe fn data_ref(&self) -> Self::DataRef<'_> {
@@ -1122,6 +1159,7 @@ unsafe impl Sharable for Node {
             Node::MRetry(c) => NodeAcc::Unit(c.data_ref()),
             Node::MOwned(c) => NodeAcc::Unit(c.data_ref()),
             Node::MRef(c) => NodeAcc::Unit(c.get().data_ref()),
+            Node::Slice(_) => slice_member(),
         }
     }
 }
@@ -1155,13 +1193,13 @@ impl<'g, F: Fam> NodeAcc<'g, F> {
     }
 }
 
-impl<'g, F: Fam> ContAcc<NodeAcc<'g, F>> {
+impl<'g, F: Fam> FCont<'g, F, NodeAcc<'g, F>> {
     pub fn visit<'x>(&'x mut self, path: &[u8], layers: &mut Vec<bool>) -> PayRef<'x> {
         self.get_mut(path[0] as usize).visit(&path[1..], layers)
     }
 }
 
-impl<'g, F: Fam> ContAcc<LeafAcc<'g, F>> {
+impl<'g, F: Fam> FCont<'g, F, LeafAcc<'g, F>> {
     pub fn visit_leaf<'x>(&'x mut self, path: &[u8], layers: &mut Vec<bool>) -> PayRef<'x> {
         assert!(path.len() == 1, "happysim: unit path must have one index");
         self.get_mut(path[0] as usize).open(layers)
